@@ -159,6 +159,10 @@ TEMPLATE = {"X", "P", "N", "B", "L", "AUX", "__NEXT", "__PREV"}
 
 # source variables named like the variables the passes invent
 HAND_VARS = [
+    "{skill(X,V)} :- d(X,V). best(__PREV,M) :- p(__PREV), M = #max{V : skill(__PREV,V)}. #show best/2.",
+    "{skill(X,V)} :- d(X,V). best(__NEXT,M) :- p(__NEXT), M = #min{V : skill(__NEXT,V)}. #show best/2.",
+    "{skill(X,V)} :- d(X,V). best(P,M) :- p(P), M = #max{V : skill(P,V)}. :~ best(__NEXT,M), q(__NEXT,__PREV). [M,__NEXT,__PREV]",
+    "{ shift(D,L) : pshift(D,L) } 1 :- day(D). a(__PREV,S) :- q(__PREV), S = #sum{L,D : shift(D,L)}. #show a/2.",
     "{foo(X) : dom(X)}. hit(X0) :- cand(X0), 14 < #max{X : foo(X)}. #show hit/1.",
     "{foo(X) : dom(X)}. hit(X0,X1) :- cand(X0), cand(X1), 14 > #min{X : foo(X); X : bar(X)}. {bar(X)} :- dom(X). #show hit/2.",
     "{p(X)} :- d(X). a(AUX0) :- e(AUX0), 2 { p(X) : d(X) }. #show a/1.",
